@@ -50,11 +50,11 @@ type runCase struct {
 	Key     string `json:"key"`    // PAN-OS API key / NSX x-xsrf-token
 	Cookie  string `json:"cookie"` // NSX session cookie
 	FaultAt int    `json:"fault_at"`
-	Fault   string `json:"fault"`   // HTTP: eof | timeout | status | statuskey | trunc | invalid | inactive ; SSH: close | silence | wrongpass
-	User    string `json:"user"`    // "" = admin
+	Fault   string `json:"fault"`    // HTTP: eof | timeout | status | statuskey | trunc | invalid | inactive ; SSH: close | silence | wrongpass
+	User    string `json:"user"`     // "" = admin
 	KeyKind string `json:"key_kind"` // "" = base64-like key; else the odd character class the key contains (scan only)
-	Variant int    `json:"variant"` // layout of the keygen response / netspoc config with or without changes
-	Cred    string `json:"cred"`    // "" normal credentials file; "4fields" | "nomatch" | "badpattern": malformed
+	Variant int    `json:"variant"`  // layout of the keygen response / netspoc config with or without changes
+	Cred    string `json:"cred"`     // "" normal credentials file; "4fields" | "nomatch" | "badpattern": malformed
 }
 
 func (c runCase) user() string {
